@@ -407,6 +407,18 @@ impl WalWriter {
         Ok(())
     }
 
+    /// Truncate the log to its last complete record
+    fn truncate_torn_tail(&mut self) -> Result<()> {
+        let file_len = self.file.metadata().map_err(P2PError::Io)?.len();
+        let good_len = complete_frames_len(&self.path)?;
+        if good_len < file_len {
+            self.file.set_len(good_len).map_err(P2PError::Io)?;
+            self.file.sync_all().map_err(P2PError::Io)?;
+        }
+        self.current_size = good_len.min(file_len);
+        Ok(())
+    }
+
     /// One more than the largest suffix of the rotated logs present
     fn next_rotation_sequence(&self) -> Result<u64> {
         let dir = self.path.parent().unwrap_or_else(|| Path::new("."));
@@ -510,6 +522,18 @@ impl<T: Serialize + for<'de> Deserialize<'de> + Clone + PartialEq + Send + Sync 
 
         // Perform recovery
         manager.recover().await?;
+
+        // Drop a torn tail (left by a crash in the middle of a write) so that
+        // new records are not framed after bytes recovery cannot step over
+        manager
+            .wal_writer
+            .lock()
+            .map_err(|_| {
+                P2PError::Storage(StorageError::LockPoisoned(
+                    "mutex lock failed".to_string().into(),
+                ))
+            })?
+            .truncate_torn_tail()?;
 
         // Start checkpoint task
         manager.start_checkpoint_task()?;
@@ -1603,6 +1627,26 @@ fn load_or_create_hmac_key(state_dir: &Path) -> Result<Vec<u8>> {
     })?;
 
     Ok(key)
+}
+
+/// Number of leading bytes of a log file that consist of complete
+/// length-prefixed records
+fn complete_frames_len(path: &Path) -> Result<u64> {
+    let mut file = File::open(path).map_err(P2PError::Io)?;
+    let file_len = file.metadata().map_err(P2PError::Io)?.len();
+    let mut position = 0u64;
+    while file_len - position >= 4 {
+        let mut size_bytes = [0u8; 4];
+        file.read_exact(&mut size_bytes).map_err(P2PError::Io)?;
+        let entry_size = u32::from_le_bytes(size_bytes) as u64;
+        if entry_size > file_len - position - 4 {
+            break;
+        }
+        position += 4 + entry_size;
+        file.seek(std::io::SeekFrom::Start(position))
+            .map_err(P2PError::Io)?;
+    }
+    Ok(position)
 }
 
 /// Numeric suffix of a rotated log `wal.<n>.wal`
